@@ -10,6 +10,7 @@ C05-d  failure handling: set_chunk_valid's < 1 edge zero-fills, marks failed, re
        and the callbacks turn that into an error return (R1).
 C05-f  multipart state: payload is forwarded only in the data state with size = min(part length, available),
        and the part length is decreased by what was forwarded.
+C05-h  any boundary string: text from the response reaches regcomp() only through a quoting helper.
 Declined: independence from fragmentation as a whole (state machine over all partitions of the byte stream).
 """
 from ..flow import M1, NEG, Z, P1, POS, TOP, mask_str
@@ -57,6 +58,10 @@ def run(ctx):
             ck.min_instances('error-propagation sites of the download write path', k, 5)
         from ..rules import extra
         extra.check_dl_reset(ck, prog, config, 'C05-g')
+        # ---- h  any boundary string: response text is quoted before it becomes part of a pattern
+        from ..rules import submatch
+        ni = submatch.check_pattern_injection(ck, prog, config, 'C05-h')
+        ck.min_instances('run-time strings inserted into compiled patterns', ni, 2)
         # ---- f multipart data state
         me = prog.need_func('multipart_extract')
 
@@ -140,6 +145,9 @@ CLAIM = {
 }
 
 MUTANTS = [
+    {'id': 'm05q', 'desc': 'boundary pasted into the pattern unquoted (pre-fix form)', 'file': 'src/lib/dl/multipart.c',
+     'old': '    char *quoted = quote_for_regex(boundary);', 'new': '    char *quoted = strdup(boundary);',
+     'expect': 'R7.pattern-injection add_boundary_to_regex'},
     {'id': 'm60', 'desc': 'arming without the valid==1 skip', 'file': 'src/lib/dl/dl.c',
      'old': """            if(tgt_chk->valid == 1)
                 continue;
